@@ -15,23 +15,23 @@ for sid in sorted(os.listdir('/verif/seeded')):
         if m and m.group(1): funcs.add(m.group(1).strip()[:70])
     used[pid].append("%s (%s; %s)" % (sid[len(pid)+1:].replace('_',' '), ", ".join(files), "; ".join(sorted(funcs))))
 fresh={
-"C01":"LongReadAssigner.match_consistent / resolving ambiguity between several matching isoforms (non-intronic features, exon overlap, polyA, mono-exonic reads), JunctionComparator.compare_junctions for intron retention / exon skipping / alternative site classification and the delta comparisons there, classify_single_intron_alternation, mono-exon read handling (get_mono_exon_subtype), profile construction for split exons",
-"C02":"TPM normalisation (convert_counts_to_tpm, --normalization_method usable_reads vs simple), the __ambiguous/__no_feature/__not_aligned bookkeeping in AssignedFeatureCounter.add_read_info, gene counts for reads ambiguous between isoforms of one gene vs several genes, output of zero rows (output_zeroes / complete feature list), the linear grouped format",
-"C03":"exon numbering / order of exon records on the minus strand, attributes copied from the reference (feature_attributes), GeneInfo.from_models / from_model, reference features (CDS, start/stop codons) printed with reference transcripts, create_extended_storage and the extended annotation printing order, transcript ids of reference transcripts in extended_annotation.gtf",
-"C04":"intron_graph.py cleaning of tips and bulges (clean_tips / clean_bulges / simplify), significance thresholds of introns (min counts / relative coverage), IntronPathProcessor path enumeration, model filters in graph_based_model_construction (mono-exonic novel models, filter by coverage, novel_monoexon handling), which reads are listed for a model in transcript_model_reads (assign_reads_to_models)",
-"C05":"BAMAlignmentStorage (default memory mode) fetch regions and counters, AbstractAlignmentStorage.alignment_is_not_adjacent, coverage valley search inside split_coverage_regions (MIN_READS_TO_SPLIT / MAX_REGION_LEN constants), alignment statistics (AlignmentType counting, merge of per-chromosome statistics, log lines), reads bridging several genes / get_gene_info_for_region",
-"C08":"MultimapResolver.select_best_assignment for strategy take_best vs ignore_secondary/merge, resolve() result flags (multimapper, suppressed / ambiguous type rewriting), prepare_multimapper_dict / resolve_multimappers in DatasetProcessor (per-chromosome dictionaries, loading order), BasicReadAssignment construction from a ReadAssignment",
-"C09":"AlignmentTagReadGrouper / ReadIdSplitReadGrouper / parse of the --read_group option (spec strings with several colons, column indexes, delimiters), grouped count output formats (matrix vs linear vs both, --counts_format), conversion of linear grouped counts, group columns order, grouped TPM tables",
-"C10":"per-experiment state in DatasetProcessor.process_all_samples / process_sample (anything cached on self, on classes or in modules between experiments), the combined_* tables, labels and prefixes of experiments from list files / yaml, clean-up of aux files between experiments, --resume / --keep_tmp interplay with several experiments",
-"C11":"left/right twin code in LongReadAssigner (check_read_ends, categorize_exon_elongation_subtype callers, tss vs tes checks), JunctionComparator terminal handling (get_mono_exon_subtype, terminal exon checks), AlignmentInfo / PolyAFixer twin branches, corrector twin branches (correct_read ends), intron graph start/end vertex thresholds",
-"C12":"gtf2db.py conversion options (--complete_genedb vs inferred records, disable_infer_genes/transcripts, check_input_gtf, db reuse config json), gzipped vs plain GTF detection, merging of several BAMs of one experiment in dataset_processor / input_data_storage (index checks, file order, labels)",
-"C13":"GeneInfo.set_feature_properties (flags, gene lists, strands of features), restoration of profiles in the second pass (ReadAssignment (de)serialization of exon_gene_profile / intron_gene_profile, gene_info association), grouped exon/intron tables, merge of per-chromosome exon/intron tables, reads overlapping several genes",
-"C14":"ExonCorrector.correct_read (intergenic path), which isoform the correction of an ambiguous read is based on, BED printing of strand / thick coordinates / colour / block count for corrected vs uncorrected reads, exons column of read_assignments.tsv vs corrected_reads.bed, reads whose correction yields fewer exons",
-"C15":"nested records: MatchEvent fields with negative / sentinel coordinates, PolyAInfo, the additional_info / additional_attributes dicts, exon/intron gene profiles (lists of -2..1), read_group, strands; the --read_assignments / --resume reuse path (which files are read, chromosome order, multimapper dictionaries); TmpFileAssignmentLoader record interleaving",
-"C16":"correct_bam_coords, concat of adjacent blocks in get_read_blocks (I/D/=/X/P handling), junctions_from_blocks, AlignmentInfo construction (read_blocks vs cigar_blocks consistency), get_error_count regions, PolyAFixer.correct_read_info thresholds, count_polya_exons / count_polyt_exons boundary cases",
-"C17":"novel transcript / gene numbering across chromosomes and threads (id distributors per chromosome, chromosome name in ids), suffixes .nic/.nnic vs ids in counts / reads tables, ids of known transcripts reported as models, second run on an extended annotation (ExcludingIdDistributor parsing of previously generated ids for genes vs transcripts)",
-"C18":"Canonical attribute of transcript models (add_canonical_info_for_model / model attributes), strand of mono-exonic and of polyA-only models, handling of N / non-ACGT bases at splice sites, introns at the very start / end of the fetched reference window, get_assignment_strand for reads (which strand a read's Canonical flag is computed on)",
-"C19":"interval helpers of common.py not yet touched: overlaps / contains / covers_start / covers_end / equal_ranges / intersection_len / overlap_intervals / left_of / right_of / max_range / find_closest / rindex / rreplace-free helpers, difference_in_present_features, is_subprofile / contains_well_inside callers, get_exons / following_exon / preceding exon helpers",
+"C01":"(names below are pointers, some may be spelled differently in the code) resolution when several isoforms are consistent with a read (resolve by non-intronic features, exon overlap / similarity scores, polyA), subtype decisions for mono-exon reads in multi-exon genes, incomplete intron retention detection, the thresholds max_intron_shift / max_missed_exon_len / micro_intron_length and how contradictory events are combined into one assignment type, the choice of ReadAssignmentType from the list of matches",
+"C02":"ProfileFeatureCounter-free parts: CompositeCounter, the counters' dump / load / merge through per-chromosome temporary files (add_unassigned, add_confirmed_features, dump, finalize), group-specific counts with 'NA' groups, counts of discovered transcript models (transcript_model_counts / tpm) and the gene counts derived from them, counts with --transcript_quantification / --gene_quantification strategies all / with_ambiguous / unique_splicing_consistent",
+"C03":"GFFPrinter.dump: gene record coordinates vs their transcripts, order of transcripts within a gene, exon_id attributes, attributes such as Canonical / similar_reference_id / alternatives, novel genes built for unassigned models, printing of transcripts with strand '.', reference transcripts that are not expressed in the extended annotation, header comment lines",
+"C04":"mono-exonic novel and known models (construct_monoexon_*), conditions for reporting a known isoform (construct_known_isoforms, min_known_count, full-length read requirements), construct_assignment_based_isoforms, polyA / start position clustering in the intron graph, detection of similar isoforms, how transcript ends are chosen from read ends (terminal position selection, trimming / extension limits)",
+"C05":"IntergenicAlignmentCollector region formation (genes within one region, merging of overlapping genes, region boundaries at contig ends, regions without genes), routing between genic and intergenic processing, the filters --no_secondary / --min_mapq / --inconsistent_mapq_cutoff / --simple_alignments_mapq_cutoff and their defaults per data type, supplementary alignments, contigs without genes, --process_only_chr / --discard_chr",
+"C08":"second-pass loading that restores the multimapping status from the dictionaries (ReadAssignmentLoader / multimapper pickles), which reads are counted as ambiguous with the quantification strategies, gene_assignment_type after resolution, order of chromosomes / assignment ids when dictionaries are merged, reads mapped twice to the same gene",
+"C09":"file_name grouping with several files per replicate and library labels (readable_names_dict), YAML sample labels, order of the group columns across chromosomes (sorted union), the NA column, group names with spaces, grouped counts of discovered transcript models, grouped exon / intron tables",
+"C10":"per-sample prefix / out_dir / aux_dir names derived from labels (--labels, --prefix), sample-level illumina_bam, id distributors or annotation / reference handles shared between samples, args fields mutated while one sample is processed (args.read_group, args.needs_reference, args.genedb ...), accumulators such as all_read_groups / common headers, the transcript-model outputs of consecutive experiments",
+"C11":"genes on the '-' strand vs their mirror image on '+': exon elongation classification left vs right, twin functions of the intron graph (incoming / outgoing edges, starting / terminal vertices), left / right choice of transcript ends in model construction, naming of events by strand (alternative_tss vs alternative_polya_site, left vs right subtype pairs in the MatchEventSubtype tables), polyA fix for reverse-strand reads",
+"C12":"input_data_storage parsing of --bam_list / --fastq_list / --yaml (relative paths, labels, blank lines, comments), duplicated file entries, order of BAMs, BAM index presence checks (.bai / .csi), --genedb_filename, the list of chromosomes derived from BAM vs FASTA vs annotation and contigs absent from one of them, gzipped reference handling",
+"C13":"exon_counts / intron_counts printing: strand and flag columns, include / exclude counts when a read profile has -2 entries, the gene_ids column for features shared by overlapping genes on the two strands, zero rows, split-exon vs exon profiles, inclusion of ambiguous / multimapped reads, grouped formats of these tables",
+"C14":"per-event handlers of ExonCorrector.correct_assigned_read not yet touched (intron shifts, skipped / missed exons, extra introns), interplay with --delta / max_intron_shift, sorting and merging of corrected exons, corrected_reads.bed for reads assigned to '-' strand genes, reads whose terminal exons were trimmed by polyA detection, reads assigned ambiguously",
+"C15":"primitive (de)serialisation helpers: widths of write_int / read_int for large coordinates and long lists, write_string for long or empty strings, bool arrays whose length is not a multiple of 8, lists of pairs, negative ints, None vs empty; BasicReadAssignment serialisation (multimapper records), the per-chromosome lock / _info files chain used by --resume",
+"C16":"trimming of blocks by polyA detection (exons_changed), helpers that use soft-clip lengths at the read ends, indel counts near splice sites / error counts per region, insertions at block boundaries, reads consisting of N / D only or starting with D, the aligned-pairs / query coordinate side (read_start / read_end of blocks)",
+"C17":"ids of mono-exonic novel genes, novel_gene ids when several novel genes arise in one region and across --threads, collisions between counters of novel isoforms of known genes and isoforms of novel genes, exon id numbering, formatting of ids with chromosome names containing dots / underscores, ids in transcript_model_reads / counts / tpm tables vs the GTF",
+"C18":"StrandDetector thresholds and ties (count_canonical_sites totals), reference slice offsets for '-' strand introns, check_canonical on corrected vs original exons, lower-case (soft-masked) FASTA bases, the Canonical value of mono-exon reads, strand of models of novel genes voted from read strands when no introns exist",
+"C19":"helper family around junctions_from_blocks / get_exons, formatting helpers (list_to_str / range_list_to_str), merge_ranges, argmax / argmin ties, jaccard / similarity helpers, extra_exon_percentage, interval_bin_search / interval_bin_search_rev boundaries, get_top_count, get_first_best_from_sorted, helpers that collapse or deduplicate lists",
 }
 T=open('/verif/scratch/seed_prompt.tmpl').read()
 for pid in claimed:
